@@ -17,7 +17,7 @@ pub const DEF: PropDef = PropDef {
     id: "C15",
     run,
     oracle,
-    rule: "cases = (cache-preloading calls, measured call) from: F1 hostile headers over short bodies (every count/length field of every version set to 0xffff/0x7fff); F2 buffers packed with n minimal packets per version; F3 one packet with n minimal sets/flowsets (empty, one record) under small and 1000-field cached templates; F4 one set with n minimal records; F5 templates with n fields plus matching data; F6 templates with z zero-length fields x r records (z*r <= 2e5); F7 failing records (V9 retry loop); F9 decode-then-discard; F10 one packet whose n sets redefine (same kind / other kind) or carry data for n distinct ids of a cache that earlier calls filled with 6000 templates (cost must not depend on what is cached); F8 random hostile and conformant histories; sizes up to the 65,535-byte limit. Oracle per measured call: S1 alloc_bytes <= K0 + K1*|buf| + K2*result_size; S2 result_size <= K0 + K3*(|buf| + wire size of the cached templates); S3 (metamorphic, per family) cost(2n) <= 2.5*cost(n) + K0 for alloc_bytes, alloc_calls and result_size at successive doublings up to the limit. S5 (CPU work, counted as instructions executed inside the measured parse_bytes call by valgrind/callgrind on a helper binary - exact, no clock involved; per family at its maximal size n): instructions(n) <= 6 x instructions(n/4) + 3e6 (linear 4x, quadratic 16x); S6 (families F10, a packet of 500 sets): instructions against the 6000-template cache <= 2 x instructions against a cache holding only the 500 ids used + 5e5. K0 = 128 KiB; K1, K2, K3 calibrated once (4x the maximum observed on the unchanged tree over the generated cases that avoid open findings; recorded in the source). A bound that fails only by what the open finding 'zero-length fields are materialised per record' explains (budget computed from the templates in effect and the set sizes) is forgiven with that signature; anything else is a violation. non-trivial = |buf| >= 1 KiB, or a header field announces >= 16x more records/bytes than present, or the case is an S3 doubling pair; distinct by digest.",
+    rule: "cases = (cache-preloading calls, measured call) from: F1 hostile headers over short bodies (every count/length field of every version set to 0xffff/0x7fff); F2 buffers packed with n minimal packets per version; F3 one packet with n minimal sets/flowsets (empty, one record) under small and 1000-field cached templates; F4 one set with n minimal records; F5 templates with n fields plus matching data; F6 templates with z zero-length fields x r records (z*r <= 2e5); F7 failing records (V9 retry loop); F1d chains of minimal messages whose data (variable-length prefix) or template (fixed width 65534; enterprise, string, octet-array and untyped elements) announces bytes the set does not hold; F9 decode-then-discard; F10 one packet whose n sets redefine (same kind / other kind) or carry data for n distinct ids of a cache that earlier calls filled with 6000 templates (cost must not depend on what is cached); F8 random hostile and conformant histories; sizes up to the 65,535-byte limit. Oracle per measured call: S1 alloc_bytes <= K0 + K1*|buf| + K2*result_size; S2 result_size <= K0 + K3*(|buf| + wire size of the cached templates); S3 (metamorphic, per family) cost(2n) <= 2.5*cost(n) + K0 for alloc_bytes, alloc_calls and result_size at successive doublings up to the limit. S5 (CPU work, counted as instructions executed inside the measured parse_bytes call by valgrind/callgrind on a helper binary - exact, no clock involved; per family at its maximal size n): instructions(n) <= 6 x instructions(n/4) + 3e6 (linear 4x, quadratic 16x); S6 (families F10, a packet of 500 sets): instructions against the 6000-template cache <= 2 x instructions against a cache holding only the 500 ids used + 5e5. K0 = 128 KiB; K1, K2, K3 calibrated once (4x the maximum observed on the unchanged tree over the generated cases that avoid open findings; recorded in the source). A bound that fails only by what the open finding 'zero-length fields are materialised per record' explains (budget computed from the templates in effect and the set sizes) is forgiven with that signature; anything else is a violation. non-trivial = |buf| >= 1 KiB, or a header field announces >= 16x more records/bytes than present, or the case is an S3 doubling pair; distinct by digest.",
     assumptions: &[
         "memory cost is allocator traffic on the calling thread (deterministic); CPU cost is the instruction count of the measured call under callgrind (repeatable to within a few percent; skipped, and reported as skipped in the evidence, if valgrind is not installed); clocks are never an oracle",
         "constants K1..K3 are calibrated, not derived; the targeted defects exceed them by orders of magnitude",
@@ -575,6 +575,30 @@ pub fn family(name: &str, n: usize) -> Option<(Vec<Vec<u8>>, Vec<u8>)> {
             f.push((5, 1));
             (vec![ipfix_msg(&tpl_set(Proto::Ipfix, 500, &plain(f)))], ipfix_msg(&data_set(500, n, 1)))
         }
+        // chains of minimal messages/packets whose DATA announces (variable-length prefix) or
+        // whose template declares (fixed width) far more bytes than the set holds
+        n_ if n_.starts_with("F1d-chain-ipfix-short-data-") || n_.starts_with("F1d-chain-v9-short-data-") => {
+            let v9 = n_.contains("-v9-");
+            let kind = n_.rsplit("short-data-").next().unwrap_or("");
+            let (spec, body): (FieldSpec, Vec<u8>) = match kind {
+                "ent-varlen3" => (FieldSpec { ie: 100, len: VARLEN, ent: Some(9) }, vec![0xff, 0xff, 0xff]),
+                "ent-varlen1" => (FieldSpec { ie: 100, len: VARLEN, ent: Some(9) }, vec![0xfe, 1, 2]),
+                "ent-fixed" => (FieldSpec { ie: 100, len: 65534, ent: Some(9) }, vec![1, 2]),
+                "str-varlen3" => (FieldSpec { ie: 82, len: VARLEN, ent: None }, vec![0xff, 0xff, 0xff]),
+                "str-fixed" => (FieldSpec { ie: if v9 { 94 } else { 82 }, len: 65534, ent: None }, vec![1, 2]),
+                "octets-fixed" => (FieldSpec { ie: if v9 { 95 } else { 313 }, len: 65534, ent: None }, vec![1, 2]),
+                "untyped-fixed" => (FieldSpec { ie: if v9 { 1000 } else { 600 }, len: 65534, ent: None }, vec![1, 2]),
+                _ => return None,
+            };
+            let d = Def { kind: Kind::Plain, scope_n: 0, fields: vec![spec] };
+            let mut st = W::default();
+            enc_set(&mut st, 256, &body, 0);
+            if v9 {
+                (vec![v9_pkt(1, &tpl_set_padded(Proto::V9, 256, &d))], v9_pkt(1, &st.0).repeat(n))
+            } else {
+                (vec![ipfix_msg(&tpl_set_padded(Proto::Ipfix, 256, &d))], ipfix_msg(&st.0).repeat(n))
+            }
+        }
         // chains of minimal packets whose count fields announce far more than is present
         "F1c-chain-ipfix-opttpl-scope-overannounced" => {
             let mut r = W::default();
@@ -673,6 +697,16 @@ pub const FAMILIES: &[(&str, usize, usize)] = &[
     ("F1c-chain-v9-tpl-fields-overannounced", 28, 2340),
     ("F1c-chain-v9-opttpl-lengths-overannounced", 30, 2184),
     ("F1c-v9-flowsets-tpl-fields-overannounced", 8, 8000),
+    ("F1d-chain-ipfix-short-data-ent-varlen3", 23, 2800),
+    ("F1d-chain-ipfix-short-data-ent-varlen1", 23, 2800),
+    ("F1d-chain-ipfix-short-data-ent-fixed", 22, 2900),
+    ("F1d-chain-ipfix-short-data-str-varlen3", 23, 2800),
+    ("F1d-chain-ipfix-short-data-str-fixed", 22, 2900),
+    ("F1d-chain-ipfix-short-data-octets-fixed", 22, 2900),
+    ("F1d-chain-ipfix-short-data-untyped-fixed", 22, 2900),
+    ("F1d-chain-v9-short-data-str-fixed", 26, 2500),
+    ("F1d-chain-v9-short-data-octets-fixed", 26, 2500),
+    ("F1d-chain-v9-short-data-untyped-fixed", 26, 2500),
     ("F9-v9-decode-then-discard", 1, 65000),
     ("F9-ipfix-decode-then-truncated-varlen", 1, 65000),
     ("F10-v9-options-cached-redefined-as-plain", 12, 5000),
